@@ -6,7 +6,7 @@ I, reg = get_interp()
 name, case = sys.argv[1], eval(sys.argv[2])
 c = [c for c in reg.values() if c.name.endswith(name)][0]
 f, kind = c.target(I)
-I.under_test = c.name; I.inline=set(c.inline)
+I.under_test = c.name; I.inline=set(c.inline); I.loop_specs = {c.name: c.loops} if c.loops else {}
 if hasattr(c,'local_contracts'):
     I.contracts=dict(I.contracts); I.contracts.update(c.local_contracts())
 ctx = Ctx()
@@ -15,5 +15,7 @@ params = c.params(f)
 try:
     r = I.inline_call(ctx, f, [], {p:a[p] for p in params if p in a})
     print("RETURN", r)
+except Exception as e:
+    import traceback; traceback.print_exc()
 except ExcVal as e:
     print("RAISE", e.cls.name, "at", ctx.where, e.args_)
